@@ -144,8 +144,9 @@ def gen_case(rng, for_merge):
         if langs[li]:
             p = rng.randrange(len(langs[li]))
             langs[li].insert(p, langs[li][p])
-    if objs and rng.random() < (0.04 if for_merge else 0.02):
-        objs[rng.randrange(len(objs))][3] = True                       # node list emptied after construction
+    if for_merge and objs and rng.random() < 0.04:
+        # node list emptied after construction: outside the domain (Caption() forbids it), compared for information
+        objs[rng.randrange(len(objs))][3] = True
     return {"objs": objs, "langs": langs}
 
 
@@ -445,11 +446,15 @@ def run(ctx):
     dist = res["distribution"]
     shrunk_kinds = set()
 
-    def report(v, fails):
+    def report(v, evaluate):
+        """evaluate(case) -> violation dict or None; the first violation of every kind is shrunk"""
         if v["kind"] not in shrunk_kinds and len(shrunk_kinds) < 6:
             shrunk_kinds.add(v["kind"])
-            small = compact(shrink(v["input"], fails))
-            v = dict(v, input=small, original_input=v["input"])
+            kind = v["kind"]
+            small = compact(shrink(v["input"], lambda c: (evaluate(c) or {}).get("kind") == kind))
+            v2 = evaluate(small)
+            if v2 and v2.get("kind") == kind:
+                v = dict(v2, original_input=v["input"])
         res["violations"].append(v)
 
     # ---------------- adjust --------------------------------------------------------------
@@ -481,8 +486,7 @@ def run(ctx):
             zero = any(exact(case["objs"][k][0]) * exact(skew) + exact(off) == 0 for refs in case["langs"] for k in refs)
             bump(dist, "adjust_new_start_exactly_zero", int(zero))
         if v:
-            report(v, lambda c, skew=skew, off=off, kind=v["kind"]:
-                   (eval_adjust(c, skew, off)[0] or {}).get("kind") == kind)
+            report(v, lambda c, skew=skew, off=off: eval_adjust(c, skew, off)[0])
         elif d:
             res["disagreements"].append(d)
     sample_adjust = {"op": "adjust", "input": cases[0][0], "skew": cases[0][1], "offset": cases[0][2]}
@@ -537,7 +541,7 @@ def run(ctx):
             continue
         v, d = judge_merge(case, b, o1, o2, info, m, ok, okf)
         if v:
-            report(v, lambda c, kind=v["kind"]: in_domain(c) and (eval_merge(c)[0] or {}).get("kind") == kind)
+            report(v, lambda c: eval_merge(c)[0] if in_domain(c) else None)
         elif d:
             res["disagreements"].append(d)
     dist["merge_max_run_length_histogram(13 = 13 or more)"] = runlens
